@@ -483,11 +483,8 @@ func r12_5(c *Ctx) {
 		switch {
 		case st.Val == ssa.Value(d):
 			// guarded by d > 0
-			for _, ifi := range ifsIn(rs) {
-				op, k, succ, ok := cmpConstEdge(ifi, func(v ssa.Value) bool { return v == ssa.Value(d) })
-				if ok && k == 0 && op == token.GTR && edgeDominates(ifi.Block(), succ, st.Block()) {
-					okStore = true
-				}
+			if intGuard(rs, st.Block(), func(v ssa.Value) bool { return v == ssa.Value(d) }, negInf, 1, posInf) {
+				okStore = true
 			}
 		default:
 			if _, n, _, ok := fieldOfLoad(st.Val); ok && n == "InitialInterval" {
@@ -793,11 +790,8 @@ func r12_7(c *Ctx) {
 		for _, ret := range returnsOf(gi) {
 			for _, s := range sources(ret.Results[0]) {
 				if s == ssa.Value(gi.Params[1]) {
-					for _, ifi := range ifsIn(gi) {
-						op, k, succ, ok := cmpConstEdge(ifi, func(v ssa.Value) bool { return v == ssa.Value(gi.Params[1]) })
-						if ok && op == token.GTR && k == 0 && edgeDominates(ifi.Block(), succ, ret.Block()) {
-							capOK = true
-						}
+					if intGuard(gi, ret.Block(), func(v ssa.Value) bool { return v == ssa.Value(gi.Params[1]) }, negInf, 1, posInf) {
+						capOK = true
 					}
 				}
 			}
